@@ -2,7 +2,7 @@
 From Coq Require Import ZArith List.
 From Clip Require Import base.Geom base.Winding base.Region base.Dist base.CSem model.RegionCheck.
 From Clip Require Import gen.Gen_core gen.Gen_engine model.Sweep1D proofs.Sweep1D_main proofs.Sweep1D_gen.
-From Clip Require model.Rings proofs.Rings.
+From Clip Require model.Rings proofs.Rings proofs.RingsWf.
 Import ListNotations.
 Local Open Scope Z_scope.
 
